@@ -166,8 +166,8 @@ func blackBox(ctx context.Context, out *vh.Out, rng *vh.Rng, thorough bool) {
 			if err := a.Broadcast(ctx, chainexchange.Message{Instance: inst, Chain: c, Timestamp: ts}); err != nil {
 				errStr = "broadcast-error"
 			}
-			self, kok1 := countFound(a, inst, c, 15*time.Second)
-			found, kok2 := countFound(b, inst, c, 15*time.Second)
+			self, kok1 := countFound(a, inst, c, 45*time.Second)
+			found, kok2 := countFound(b, inst, c, 45*time.Second)
 			out.Line("bb send valid=1 reason=%s inst=+%d chain=%s found=%d of=%d self=%d kok=%d", errStr, d, w.chainStr(c), found, c.Len(), self, b2i(kok1 && kok2))
 		}
 		// broadcasts B must not admit, published raw by C
